@@ -86,7 +86,8 @@ class C08(core.Check):
             d = self.host(ds, size, lang, pre)
             pts = d.safe_points + [len(d.src)]
             yield dict(docseed=ds, size=size, lang=lang, pre=pre, fault='clean', at=0, fs=0)
-            i += 1
+            yield dict(docseed=ds + 1, size=size + 3, lang=lang, pre=pre, fault='clean', at=0, fs=0)
+            i += 2
             # every insertion point, one random fault kind each (points near the end twice)
             for k, pt in enumerate(pts):
                 reps = 2 if len(d.src) - pt <= 20 else 1
@@ -100,8 +101,10 @@ class C08(core.Check):
                     yield dict(docseed=ds, size=size, lang=lang, pre=pre, fault='openarg', at=a, fs=rnd.getrandbits(16))
                     i += 1
 
-    def host(self, ds, size, lang, pre=0):
-        return gdocs.random_document(random.Random(ds), size=size, lang=lang, kinds=HOST_KINDS, max_depth=4,
+    def host(self, ds, size, lang, pre=0, clean=False):
+        # valid documents judged as a whole also contain comments and skipped regions (hidden faults inside them)
+        kinds = HOST_KINDS + ['skip', 'skip', 'comment', 'ltskip'] if clean else HOST_KINDS
+        return gdocs.random_document(random.Random(ds), size=size, lang=lang, kinds=kinds, max_depth=4,
                                      pack='*,.yvm.ext', end_pressure=0, preamble_extra=self.pre(pre))
 
     @staticmethod
@@ -153,8 +156,10 @@ class C08(core.Check):
             ins = '\\begin{verbatim}' + rnd.choice([' abc', '', '\nabc\n'])
             return src[:at] + ins + rest.replace('\\end{verbatim}', ''), at, len(src) + len(ins)
         if f == 'skip':
-            ins = '%%% LT-SKIP-BEGIN' + rnd.choice(['', ' x']) + '\n'
-            return src[:at] + ins + rest.replace('%%% LT-SKIP-END', '%% LT-SKIP-END'), at, None
+            pre = rnd.choice(['', '', '%hcQ\n', '%hcQ\n  '])      # marker directly below another comment line
+            ins = pre + '%%% LT-SKIP-BEGIN' + rnd.choice(['', ' x']) + '\n'
+            at += len(pre)
+            return src[:at - len(pre)] + ins + rest.replace('%%% LT-SKIP-END', '%% LT-SKIP-END'), at, None
         if f == 'accent':
             ins = rnd.choice(["\\'1", '\\`+', '\\^2', '\\"9', '\\~?', '\\c{3}', '\\v 7']) + ' '
             return src[:at] + ins + rest, at, None
@@ -165,8 +170,8 @@ class C08(core.Check):
         raise ValueError(f)
 
     def judge(self, case):
-        d = self.host(case['docseed'], case['size'], case['lang'], case.get('pre', 0))
         f = case['fault']
+        d = self.host(case['docseed'], case['size'], case['lang'], case.get('pre', 0), clean=f == 'clean')
         cnt = {'fault_' + f: 1, 'preamble_%d' % case.get('pre', 0): 1}
         opts = dict(lang=case['lang'], pack=d.pack)
         if f == 'clean':
